@@ -4,21 +4,26 @@ same configuration would, whatever documents it converted before; and creating o
 the behaviour of another.
 
 Only property statements live here.  The model is `MdVerif/Model/Instance.lean` (an abstract instance: `cfg`,
-the `fields` that `reset()` clears, the `leak` that it does not clear, and `convert` as an arbitrary function), helper
-lemmas are in `MdVerif/Lemmas/Instance.lean`.  Core Lean only.
+`fields`, and `leak` = the block parser's nesting state; `convert` is an arbitrary function), helper lemmas are in
+`MdVerif/Lemmas/Instance.lean`.  Core Lean only.
 
-Shape: a frame theorem.  The two facts about the code that it rests on are
-* (H1) `reset()` re-initialises every field that a conversion writes, except `leak` — this is the *definition* of
-  `reset` in the model; that the split of the real attributes into `fields` and `leak` is the right one (nothing a
-  conversion writes is outside `fields ∪ leak ∪ result`) is checked against the implementation by the harness;
-* (H2) `Balanced`: a conversion that returns leaves `leak` (`parser.state`) as it found it.
-From these: after any history of conversions and resets in which no conversion raised, `reset()` gives *the* fresh
-instance (`C11_reset_is_fresh`), hence the same HTML and the same side outputs for every later document
+Shape: a frame theorem.  The one fact about the code that it rests on is
+* (H1) `reset()` re-initialises everything that a conversion writes (`fields` and `leak`) and keeps `cfg` — this is
+  the *definition* of `reset` in the model.  That it is true of the code — that nothing a conversion writes lies
+  outside what `reset()` re-initialises — is `C11_conversion_writes_are_reset` of `Props/C11Census.lean`, decided
+  over the census of all writes in the source, plus the dynamic deep-state comparison of the harness.
+From it, for **every** history of conversions and resets — conversions that raised included — `reset()` gives *the*
+fresh instance (`C11_reset_is_fresh`), hence the same HTML and the same side outputs for every later document
 (`C11_reset_fresh`), hence nothing of an earlier document can appear in a later one.
 
-`C11_noraise_needed` is the kernel-checked counterexample that shows why the history must be free of raising
-conversions: it is the known defect F-C11-1 (after a `RecursionError`, `parser.state` is not cleared by `reset()`,
-and `md.reset().convert('foo\n\nbar')` gives `foo\nbar` in one paragraph).
+History.  Until commit f86514b ("reset() clears the block parser's nesting state") `Markdown.reset()` did not clear
+`parser.state`, and the theorem needed two hypotheses: `Balanced` (a conversion that returns leaves the nesting state
+as it found it) and `NoRaise` (no conversion of the history raised).  Defect F-C11-1 was the case in which `NoRaise`
+fails: after a `RecursionError`, `md.reset().convert('foo\n\nbar')` gave `foo\nbar` in one paragraph.  The last section
+keeps this on record for `resetOld`, the former `reset`: the kernel-checked counterexample
+(`C11_before_repair_noraise_needed`), and `C11_repair_conservative` — on histories without a raise the new `reset`
+does exactly what the old one did.  `Balanced` is still what makes consecutive conversions *without* `reset()` start
+from an empty nesting state (`C11_leak_balanced`).
 
 `C11_instances_disjoint`: in a program that holds several instances (separate stores, no shared mutable cell — the
 census of C12 is what justifies this shape), whatever is done with the others, instance `j` is where its own events
@@ -32,43 +37,55 @@ namespace MdVerif.Instance
 section
 variable {Cfg F L Doc O : Type} (M : Machine Cfg F L Doc O)
 
-/-- **After `reset()` the instance is the fresh instance.**  For every history `h` of conversions and resets (in any
-    order) none of whose conversions raised. -/
-theorem C11_reset_is_fresh (hb : Balanced M) (c : Cfg) (h : List (Ev Doc)) (hn : NoRaise M (fresh M c) h) :
-    reset M (runHistory M (fresh M c) h) = fresh M c :=
-  reset_of_clean M (clean_runHistory M hb h (fresh M c) (clean_fresh M c) hn)
+/-- `reset()` keeps nothing of an instance but its configuration -/
+theorem C11_reset_eq_fresh (x : Inst Cfg F L) : reset M x = fresh M x.cfg := rfl
 
-/-- **C11.**  Whatever the instance converted before (without raising), after `reset()` it converts `d` exactly as a
-    freshly constructed instance with the same configuration: same result (HTML), same fields afterwards (side
-    outputs: `Meta`, `toc`, `references`, …). -/
-theorem C11_reset_fresh (hb : Balanced M) (c : Cfg) (h : List (Ev Doc)) (hn : NoRaise M (fresh M c) h) (d : Doc) :
+/-- **After `reset()` the instance is the fresh instance.**  For every history `h` of conversions and resets, in any
+    order, whether the conversions returned or raised. -/
+theorem C11_reset_is_fresh (c : Cfg) (h : List (Ev Doc)) :
+    reset M (runHistory M (fresh M c) h) = fresh M c := by
+  rw [reset_eq_fresh, cfg_runHistory]; rfl
+
+/-- **C11.**  Whatever the instance converted before, after `reset()` it converts `d` exactly as a freshly
+    constructed instance with the same configuration: same result (HTML), same fields afterwards (side outputs:
+    `Meta`, `toc`, `references`, …). -/
+theorem C11_reset_fresh (c : Cfg) (h : List (Ev Doc)) (d : Doc) :
     observe (conv M (reset M (runHistory M (fresh M c) h)) d) = observe (conv M (fresh M c) d) := by
-  rw [C11_reset_is_fresh M hb c h hn]
+  rw [C11_reset_is_fresh M c h]
 
-/-- … and not only what is observed: the whole instance afterwards, `leak` included -/
-theorem C11_reset_fresh_state (hb : Balanced M) (c : Cfg) (h : List (Ev Doc)) (hn : NoRaise M (fresh M c) h)
-    (d : Doc) : conv M (reset M (runHistory M (fresh M c) h)) d = conv M (fresh M c) d := by
-  rw [C11_reset_is_fresh M hb c h hn]
+/-- … and not only what is observed: the whole instance afterwards, nesting state included -/
+theorem C11_reset_fresh_state (c : Cfg) (h : List (Ev Doc)) (d : Doc) :
+    conv M (reset M (runHistory M (fresh M c) h)) d = conv M (fresh M c) d := by
+  rw [C11_reset_is_fresh M c h]
 
 /-- … and for every continuation, not only for one document: all later observations are those of a fresh instance -/
-theorem C11_reset_fresh_future (hb : Balanced M) (c : Cfg) (h : List (Ev Doc)) (hn : NoRaise M (fresh M c) h)
-    (later : List (Ev Doc)) :
+theorem C11_reset_fresh_future (c : Cfg) (h : List (Ev Doc)) (later : List (Ev Doc)) :
     results M (reset M (runHistory M (fresh M c) h)) later = results M (fresh M c) later := by
-  rw [C11_reset_is_fresh M hb c h hn]
+  rw [C11_reset_is_fresh M c h]
 
 /-- the usual usage — every document preceded by `reset()` — as a special case -/
-theorem C11_reset_fresh_docs (hb : Balanced M) (c : Cfg) (docs : List Doc)
-    (hn : NoRaise M (fresh M c) (resetEach docs)) (d : Doc) :
+theorem C11_reset_fresh_docs (c : Cfg) (docs : List Doc) (d : Doc) :
     observe (conv M (reset M (runHistory M (fresh M c) (resetEach docs))) d) = observe (conv M (fresh M c) d) :=
-  C11_reset_fresh M hb c (resetEach docs) hn d
+  C11_reset_fresh M c (resetEach docs) d
 
-/-- **Nothing is carried over.**  Two arbitrary (non-raising) pasts give the same observation of `d` after `reset()`:
-    no reference, footnote, abbreviation, stashed HTML or metadata of an earlier document can show up. -/
-theorem C11_history_irrelevant (hb : Balanced M) (c : Cfg) (h1 h2 : List (Ev Doc))
-    (hn1 : NoRaise M (fresh M c) h1) (hn2 : NoRaise M (fresh M c) h2) (d : Doc) :
+/-- **Nothing is carried over.**  Two arbitrary pasts give the same observation of `d` after `reset()`: no
+    reference, footnote, abbreviation, stashed HTML, metadata or nesting state of an earlier document can show up. -/
+theorem C11_history_irrelevant (c : Cfg) (h1 h2 : List (Ev Doc)) (d : Doc) :
     observe (conv M (reset M (runHistory M (fresh M c) h1)) d) =
       observe (conv M (reset M (runHistory M (fresh M c) h2)) d) := by
-  rw [C11_reset_fresh M hb c h1 hn1, C11_reset_fresh M hb c h2 hn2]
+  rw [C11_reset_fresh M c h1, C11_reset_fresh M c h2]
+
+/-- … and from any instance whatever, not only from one that started fresh: `reset()` of two instances with the
+    same configuration gives the same instance -/
+theorem C11_reset_depends_on_cfg_only (x y : Inst Cfg F L) (h : x.cfg = y.cfg) : reset M x = reset M y := by
+  rw [reset_eq_fresh, reset_eq_fresh, h]
+
+/-- **Without `reset()`**: if conversions are balanced and none raised, the nesting state is empty after any history
+    (so the next conversion starts like that of a fresh instance as far as `leak` is concerned; `fields` are of
+    course carried over — that is what `reset()` is for). -/
+theorem C11_leak_balanced (hb : Balanced M) (c : Cfg) (h : List (Ev Doc)) (hn : NoRaise M (fresh M c) h) :
+    (runHistory M (fresh M c) h).leak = M.leak0 :=
+  (clean_runHistory M hb h (fresh M c) (clean_fresh M c) hn).2
 
 /-! ### separate instances do not influence each other -/
 
@@ -111,38 +128,31 @@ theorem go_balanced (d : Doc) (refs : Refs) (depth : Nat) (out : List Item) (fl'
     | use k => exact ih _ _ h
     | raise => simp only [go] at h; cases h
 
-/-- hypothesis (H2) holds of the toy machine -/
+/-- `Balanced` holds of the toy machine -/
 theorem toy_balanced : Balanced machine := fun _ fl d fl' o h => go_balanced d fl.1 fl.2 [] fl' o h
 
-/-- a history: define 1 ↦ 5 and use it; then *without* reset use it again; then reset and look it up -/
+/-- a history: define 1 ↦ 5 and use it; then *without* reset use it again; then a document that raises; then reset and
+    look it up -/
 def hist : List (Ev Doc) :=
-  [.convert [.define 1 5, .use 1], .convert [.use 1], .reset, .convert [.use 1, .define 1 6, .use 1]]
-
-/-- hypothesis `NoRaise` holds of it -/
-example : NoRaise machine (fresh machine []) hist := ⟨rfl, rfl, rfl, trivial⟩
+  [.convert [.define 1 5, .use 1], .convert [.use 1], .convert [.use 1, .raise], .reset,
+   .convert [.use 1, .define 1 6, .use 1]]
 
 /-- what the conversions of this history return: without `reset()` the reference of the first document *is* seen by
-    the second (that is what `reset()` is for), after `reset()` it is not -/
+    the second (that is what `reset()` is for); the third raises inside one level of nesting; after `reset()` neither
+    the reference nor the nesting level is there -/
 example : (results machine (fresh machine []) hist).map (·.1) =
-    [.ok [(0, some 5)], .ok [(0, some 5)], .ok [(0, none), (0, some 6)]] := by decide
+    [.ok [(0, some 5)], .ok [(0, some 5)], .raised, .ok [(0, none), (0, some 6)]] := by decide
+
+/-- the nesting state that the raising conversion left behind, and that `reset()` removes -/
+example : (runHistory machine (fresh machine []) (hist.take 3)).leak = 1 ∧
+    (runHistory machine (fresh machine []) (hist.take 4)).leak = 0 := by decide
 
 /-- and C11 on this history, evaluated -/
 example : observe (conv machine (reset machine (runHistory machine (fresh machine []) hist)) [.use 1]) =
     observe (conv machine (fresh machine []) [.use 1]) := by decide
 
-/-- **Why `NoRaise` is a hypothesis (F-C11-1).**  One raising conversion; then `reset()`; then a document: the
-    result differs from that of a fresh instance (the look-up happens at nesting depth 1 instead of 0), because
-    `reset()` does not clear the `leak`. -/
-theorem C11_noraise_needed :
-    ¬ NoRaise machine (fresh machine []) [.convert [.raise]] ∧
-    (conv machine (fresh machine []) [.raise]).2 = .raised ∧
-    observe (conv machine (reset machine (runHistory machine (fresh machine []) [.convert [.raise]])) [.use 1])
-      = (.ok [(1, none)], []) ∧
-    observe (conv machine (fresh machine []) [.use 1]) = (.ok [(0, none)], []) ∧
-    observe (conv machine (reset machine (runHistory machine (fresh machine []) [.convert [.raise]])) [.use 1])
-      ≠ observe (conv machine (fresh machine []) [.use 1]) := by
-  refine ⟨fun h => ?_, by decide, by decide, by decide, by decide⟩
-  exact absurd h.1 (by decide)
+/-- hypothesis `NoRaise` of `C11_leak_balanced` holds of the first two conversions -/
+example : NoRaise machine (fresh machine []) (hist.take 2) := ⟨rfl, rfl, trivial⟩
 
 /-- two instances: defining references in instance 0 does not change what instance 1 (configured with 1 ↦ 9) says -/
 example : (runStore machine [fresh machine [], fresh machine [(1, 9)]]
@@ -153,6 +163,47 @@ example : (runStore machine [fresh machine [], fresh machine [(1, 9)]]
 /-- hypothesis `eventsOf j h = []` of `C11_other_instances_frame`: nothing in this history happens to instance 1 -/
 example : eventsOf 1 ([.on 0 (.convert [.define 1 5, .use 1]), .create [(1, 7)], .on 2 (.convert [.raise]),
     .on 0 .reset] : List (SEv Refs Doc)) = [] := by decide
+
+end Toy
+
+/-! ### history: `reset()` before commit f86514b (defect F-C11-1, repaired) -/
+
+section
+variable {Cfg F L Doc O : Type} (M : Machine Cfg F L Doc O)
+
+/-- **The repair is conservative.**  After a history of balanced conversions none of which raised, the former `reset`
+    (`resetOld`: `fields` only) and the present one give the same instance: the repair changed behaviour only where
+    the defect was. -/
+theorem C11_repair_conservative (hb : Balanced M) (c : Cfg) (h : List (Ev Doc)) (hn : NoRaise M (fresh M c) h) :
+    resetOld M (runHistory M (fresh M c) h) = reset M (runHistory M (fresh M c) h) :=
+  resetOld_of_clean M (clean_runHistory M hb h (fresh M c) (clean_fresh M c) hn)
+
+/-- the pre-repair theorem: what C11 was for `resetOld`, with the two hypotheses it needed -/
+theorem C11_before_repair_reset_fresh (hb : Balanced M) (c : Cfg) (h : List (Ev Doc))
+    (hn : NoRaise M (fresh M c) h) (d : Doc) :
+    observe (conv M (resetOld M (runHistory M (fresh M c) h)) d) = observe (conv M (fresh M c) d) := by
+  rw [C11_repair_conservative M hb c h hn, C11_reset_is_fresh M c h]
+
+end
+
+namespace Toy
+
+/-- **HISTORY: why `NoRaise` was a hypothesis (F-C11-1, fixed by f86514b).**  One raising conversion; then the
+    *former* `reset()`; then a document: the result differs from that of a fresh instance (the look-up happens at
+    nesting depth 1 instead of 0), because the former `reset()` did not clear the nesting state.  With the present
+    `reset` the same scenario gives the result of the fresh instance. -/
+theorem C11_before_repair_noraise_needed :
+    ¬ NoRaise machine (fresh machine []) [.convert [.raise]] ∧
+    (conv machine (fresh machine []) [.raise]).2 = .raised ∧
+    observe (conv machine (resetOld machine (runHistory machine (fresh machine []) [.convert [.raise]])) [.use 1])
+      = (.ok [(1, none)], []) ∧
+    observe (conv machine (fresh machine []) [.use 1]) = (.ok [(0, none)], []) ∧
+    observe (conv machine (resetOld machine (runHistory machine (fresh machine []) [.convert [.raise]])) [.use 1])
+      ≠ observe (conv machine (fresh machine []) [.use 1]) ∧
+    observe (conv machine (reset machine (runHistory machine (fresh machine []) [.convert [.raise]])) [.use 1])
+      = observe (conv machine (fresh machine []) [.use 1]) := by
+  refine ⟨fun h => ?_, by decide, by decide, by decide, by decide, by decide⟩
+  exact absurd h.1 (by decide)
 
 end Toy
 
